@@ -1,5 +1,6 @@
 import Driver.Util
 import ZixModel.Model.Env
+import ZixModel.Model.EnvAlloc
 namespace Driver.C16
 open Zix.Env
 
@@ -24,6 +25,22 @@ def step (env : List (List Nat)) (ws : List String) : List (List Nat) × String 
       | some o => (env, "out=" ++ hexOfBytes o)
       | none => (env, "out=DIVERGES")
     | none => (env, "bad-op")
+  | ["expanda", mask, h] =>
+    -- the call under an allocation oracle: requests with the listed indexes are refused
+    let idx := if mask == "-" then some [] else (mask.splitOn ",").mapM (·.toNat?)
+    match idx, bytesOfHex h with
+    | some ks, some s =>
+      if s.contains 0 then (env, "bad-op") else
+      let o := fun (x : Option Nat) => toString (x.getD 0)
+      let fmtEv : Zix.EnvAlloc.Ev → String
+        | .realloc old size res => s!"r{o old}:{size}={o res}"
+        | .free b => s!"f{o b}"
+      match Zix.EnvAlloc.expandA (fun k => ks.contains k) env s with
+      | some r =>
+        let out := match r.ret with | some (_, bytes) => hexOfBytes bytes | none => "NULL"
+        (env, s!"out={out} | ev[{" ".intercalate (r.evs.map fmtEv)}]")
+      | none => (env, "out=DIVERGES")
+    | _, _ => (env, "bad-op")
   | _ => (env, "bad-op")
 
 end Driver.C16
